@@ -823,6 +823,14 @@ func (it *Interp) binop(op token.Token, a, b Value, pos token.Pos) Value {
 			return x / y
 		case token.REM:
 			return x % y
+		case token.AND:
+			return x & y
+		case token.OR:
+			return x | y
+		case token.XOR:
+			return x ^ y
+		case token.AND_NOT:
+			return x &^ y
 		case token.LSS:
 			return x < y
 		case token.LEQ:
